@@ -81,7 +81,7 @@ def insert (r : RepTable) (h : UInt64) : RepTable :=
 def moveBack (r : RepTable) : RepTable := { r with index := r.index - 1 }
 def clear (r : RepTable) : RepTable := { r with index := 0 }
 /-- the recorded history: slots `0 .. index-1` -/
-def pre (r : RepTable) : List UInt64 := (r.table.extract 0 r.index).toList
+def pre (r : RepTable) : List UInt64 := (List.range r.index).map fun i => r.table.getD i 0
 /-- `is_now_in_threefold_repetition(curr_hash)`: does the key occur among the recorded ones -/
 def isRepetition (r : RepTable) (h : UInt64) : Bool := r.pre.contains h
 end RepTable
